@@ -14,9 +14,9 @@ package args
 //@   sweep                                                          [C16]
 // a NAME=value argument defines a STRING variable holding exactly what followed the first '=' (no typing, no
 // unquoting, no trimming), and a task name is taken as it was typed
-//@   site (*Vars).Set#1 requires arg1 == name && dyn(arg2.Value) == type(string) && arg2.Value == value     [C19,C13]
-//@   site splitVar#1 requires arg0 == arg                                                                   [C19]
-//@   site append#1 requires arg1[0].Task == arg                                                             [C15,C19]
+//@   site (*Vars).Set#0 requires arg1 == name && dyn(arg2.Value) == type(string) && arg2.Value == value     [C19,C13]
+//@   site splitVar#0 requires arg0 == arg                                                                   [C19]
+//@   site append#0 requires arg1[0].Task == arg                                                             [C15,C19]
 // Every argument after "--" is shell-quoted on its own, in order; arguments before it are returned untouched.
 //@ func Get
 //@   sweep                                                          [C16]
